@@ -1,5 +1,6 @@
 CFG = {
-    "modules": ["Parsley.Props.C03", "Parsley.Props.C03E2E", "Parsley.Props.C03E2EXref", "Parsley.Props.C03E2EObjStm", "Parsley.Props.C03E2EAll", "Parsley.Props.C03Render", "Parsley.Props.C03RenderX", "Parsley.Props.C03Enc"],
+    "modules": ["Parsley.Props.C03", "Parsley.Props.C03E2E", "Parsley.Props.C03E2EXref", "Parsley.Props.C03E2EObjStm", "Parsley.Props.C03E2EAll", "Parsley.Props.C03Render", "Parsley.Props.C03RenderX", "Parsley.Props.C03Enc",
+                "Parsley.Props.C03RenderDeep", "Parsley.Props.C03AnyFlate", "Parsley.Props.C03RenderFwd"],
     "theorems": [
         "Parsley.C03.identity_mismatch_rejected", "Parsley.C03.identity_mismatch_rejected_second",
         "Parsley.C03.firstPass_reject_lifts", "Parsley.C03.firstPass_direct",
@@ -38,7 +39,7 @@ CFG = {
         "Parsley.LoaderObjStm.extracts_written", "Parsley.LoaderObjStm.firstPass_mixed", "Parsley.LoaderObjStm.definedStreams_conts",
         "Parsley.LoaderObjStm.objStmPass_conts",
         "Parsley.C03.renderHistory_classic_wf_partial", "Parsley.C03.render_classic_loads_partial", "Parsley.C03.render_classic_binds_partial",
-        "Parsley.LoaderE2E.renderObj_simple_partial", "Parsley.LoaderE2E.renderObjs_body", "Parsley.LoaderE2E.trailer_spells",
+        "Parsley.LoaderE2E.renderObjs_body", "Parsley.LoaderE2E.trailer_spells",
         "Parsley.LoaderE2E.tableEnts_tableSubs", "Parsley.LoaderE2E.tableSubs_subOk", "Parsley.LoaderE2E.classicOf_wf",
         "Parsley.LoaderE2E.render_is_classic", "Parsley.C03.exRev_simple",
         "Parsley.C03.load_defines_exactly_xrefstream_all", "Parsley.C03.load_defines_exactly_hybrid_all",
@@ -59,6 +60,31 @@ CFG = {
         "Parsley.DocSpec.renderRevE_none", "Parsley.DocSpec.renderHistoryE_none",
         "Parsley.DocSpec.asBuilt_classic", "Parsley.DocSpec.asBuilt_undeclared", "Parsley.DocSpec.asBuilt_reject_acceptable",
         "Parsley.DocSpec.walkFlag_true_trailer", "Parsley.DocSpec.asBuilt_one_section",
+        # follow-up C03e: (1) generator link for values of ANY shape (spell_is_Spells on wfDeep), (2) FlateDecode by ANY conformant encoder
+        "Parsley.C03.simpleObj_iff", "Parsley.C03.simpleObj_of_sorted", "Parsley.C03.simpleObj_val",
+        "Parsley.C03.render_classic_binds_deep_partial", "Parsley.C03.render_xrefstream_binds_deep_partial", "Parsley.C03.exDeep_canon",
+        "Parsley.C03.exArr_canon", "Parsley.C03.exDeepObjs_simple", "Parsley.C03.exDeepRev_simple",
+        "Parsley.C03.exDeepRevX_simple", "Parsley.C03.exDeepRevXUp_simple", "Parsley.LoaderE2E.renderObj_simple",
+        "Parsley.LoaderE2E.SimpleObj.of_scalar", "Parsley.LoaderE2E.SimpleObj.of_sorted", "Parsley.LoaderE2E.wobjOf_ok",
+        "Parsley.C02.spell_is_Spells", "Parsley.C02.canon_sorted", "Parsley.C03.stored_of_flate_encoder",
+        "Parsley.C03.stored_of_flate_encoder_pred", "Parsley.C03.container_stored_of_flate_encoder", "Parsley.C03.load_defines_exactly_xrefstream_anyflate",
+        "Parsley.C03.load_defines_exactly_xrefstream_dynflate", "Parsley.C03.exZPlan_ok", "Parsley.C03.exZDict_spells",
+        "Parsley.C03.exZs_ok", "Parsley.C03.exZFile_wf0", "Parsley.C03.exZFile_loads",
+        "Parsley.LoaderE2E.inflate_of_layerEnc", "Parsley.LoaderE2E.applyFilters_flate_any", "Parsley.LoaderE2E.applyFilters_flate_pred_any",
+        "Parsley.LoaderE2E.stored_of_layerEnc", "Parsley.LoaderObjStm.decodesTo_of_stored",
+        # ... and STREAM OBJECTS with a direct /Length in the generator link
+        "Parsley.LoaderE2E.wstmOf_ok", "Parsley.LoaderE2E.renderObj_stm", "Parsley.LoaderE2E.pieceOf_val_stm",
+        "Parsley.LoaderE2E.canon_dict_eq", "Parsley.LoaderE2E.streamEntries_length", "Parsley.LoaderE2E.mem_place_placedOf",
+        "Parsley.LoaderE2E.pieceOf_reads", "Parsley.LoaderE2E.xfileOf_written_gen", "Parsley.LoaderE2E.WStm.withPad_val",
+        "Parsley.LoaderE2E.wfDeepKvs_nodup", "Parsley.C03.exDeepO5_simple", "Parsley.C03.exStm_val",
+        "Parsley.C03.pieces_keys", "Parsley.C03.piece_mem",
+        # ... and streams whose /Length is a REFERENCE (holder before or after the stream)
+        "Parsley.C03.render_classic_fwd_binds_partial", "Parsley.C03.render_classic_fwd_loads_partial", "Parsley.C03.renderHistory_classic_fwd_wf_partial",
+        "Parsley.C03.render_xrefstream_fwd_binds_partial", "Parsley.C03.render_xrefstream_fwd_loads_partial", "Parsley.C03.renderHistory_xrefstream_fwd_wf_partial",
+        "Parsley.C03.anyObj_iff", "Parsley.C03.exFwdRev_any", "Parsley.C03.exFwdRevX_any",
+        "Parsley.C03.exFwdRevXUp_any", "Parsley.LoaderE2E.render_is_classic_fwd", "Parsley.LoaderE2E.render_is_xrefstream_fwd",
+        "Parsley.LoaderE2E.classicOf_wffwd", "Parsley.LoaderE2E.xfileOf_wfall", "Parsley.LoaderE2E.pieceOf_readsDep",
+        "Parsley.LoaderE2E.classicOf_wf0", "Parsley.LoaderE2E.depIn_pieceOf",
     ],
     "partial": {
         "load_defines_exactly_partial":
@@ -100,9 +126,19 @@ CFG = {
             "DocSpec.renderHistory (the generator of the correspondence run) for ONE revision with a classic table (kind 0, no offset swap / relabel) is the byte string of a "
             "well-formed ClassicFile whose objects are exactly the (identifier, canonical value) pairs the encoder reports in Said.written; render_classic_loads_partial / "
             "render_classic_binds_partial compose it with load_defines_exactly_classic. Unrestricted: all choice streams, object padding, ofsAtPad, subsection cuts, header "
-            "widths, entry terminators, Size/Root order, free entries, object 0, leading garbage without the magic, binary comment. _partial because object values are "
-            "restricted to well-formed SCALARS written canonically (Body.val v v, C02.encSimple v): spell => Spells (C02.spell_is_Spells_partial) is not proved for arrays / "
-            "dictionaries, hence no stream objects; side conditions file < 10^10 bytes, generations <= 65535, numbers < 2^63-1, distinct numbers, at least one object. "
+            "widths, entry terminators, Size/Root order, free entries, object 0, leading garbage without the magic, binary comment. FOLLOW-UP C03e LIFTED THE RESTRICTION TO SCALAR VALUES (Props/C03RenderDeep.lean: render_classic_binds_deep_partial, "
+            "simpleObj_iff; Lemmas/LoaderE2ERender.lean: SimpleObj generalised, renderObj_simple): an object may be Body.val (canon s) s for ANY value s in the exact domain of the executable encoder "
+            "(wfDeep: scalars, references, arrays and dictionaries nested to any depth <= 50 = the loader's own nesting limit, entries written in any order) - by C02.spell_is_Spells the bytes are a legal spelling of canon s "
+            "(every dictionary as a sorted map), which is the value the encoder reports and the loader binds; non-vacuity exDeepRev_simple (dictionary written /Kids /Type /Info with nested array, "
+            "unsorted nested dictionary, reference, string, real; array holding a dictionary) evaluated to the SORTED values. ALSO LIFTED (same follow-up): STREAM OBJECTS with a direct /Length (Body.stm, lenRef = none; wstmOf, wstmOf_ok, renderObj_stm): any data bytes (incl. the keyword endstream), LF / CR LF after `stream`, "
+            "all four forms before `endstream`, /Length inserted at any position among the entries, the dictionary as written (with /Length) in the encoder's domain and its entries' values in canonical form (ValsCanon: the encoder reports the "
+            "dictionary sorted by key with the values as given); the object is bound to .stream (canonKvs entries) <start, |data|, data> (render_classic_binds_partial second clause; non-vacuity exDeepO5_simple: CR LF / CR LF framing, "
+            "data containing `endstream`, nested dictionary entry). AND (Props/C03RenderFwd.lean, Lemmas/LoaderE2ERenderFwd.lean / FwdX) STREAMS WHOSE /Length IS A REFERENCE: AnyObj = SimpleObj or FwdObj (dictionary says /Length h 0 R), AnyRev / AnyRevX = SimpleRev / SimpleRevX with AnyObj "
+            "objects + HoldersIn (the holder `h 0 obj <len> endobj` is an object of the same revision, written BEFORE or AFTER the stream); render_is_classic_fwd / render_is_xrefstream_fwd prove the rendered bytes are a ClassicFile.WFfwd / "
+            "XrefStreamFile.WFall .. [] (depOf r) layout (depOf = dependency map keyed by object number; the object-independent part of well-formedness factored as classicOf_wf0 / xfileOf_base from the number bounds alone); "
+            "render_classic_fwd_binds_partial / render_xrefstream_fwd_binds_partial: accepted, root, plain objects bound to canon s, EVERY stream object (direct or referenced /Length) bound to its stream value, nothing else; non-vacuity "
+            "exFwdRev_any / exFwdRevX_any / exFwdRevXUp_any (one holder before, one after its stream; classic, plain and Flate+PNG-Up cross-reference stream). So for kinds 0 and 1 NO restriction on the file-level objects remains; "
+            "_partial only because object-stream MEMBERS (and the hybrid kind 2 that needs them) are not covered by the link; side conditions file < 10^10 bytes, generations <= 65535, numbers < 2^63-1, distinct numbers, at least one object. "
             "(e) load_defines_exactly_xrefstream_all / load_defines_exactly_hybrid_all (Props/C03E2EAll.lean) - the MOST GENERAL single-revision statements: the bodies of (a)-(c) "
             "may hold objects of ALL kinds at once - plain objects, direct-/Length streams, streams whose /Length is a reference to an integer object written before OR AFTER "
             "them (second pass; `dep` marks them, HoldersOK), object streams with members - via LoaderObjStm.stage_two_pass_objstm (both passes + object-stream pass from any "
@@ -113,17 +149,24 @@ CFG = {
             "the subsections and /W widths xrefStreamParts computes, and that this layout's objects - the cross-reference stream object ((xnum,0), xv) included - are exactly "
             "Said.written; render_xrefstream_loads_partial / _binds_partial compose it with load_defines_exactly_xrefstream. Unrestricted: choice streams, padding, ofsAtPad, /Index "
             "partition (cut), /Index omitted or written, extra width bytes, type-field width, dictionary rotation, storage (unfiltered / FlateDecode / FlateDecode + PNG-Up), free "
-            "entries, object 0, garbage without the magic, binary comment. _partial: scalar values only (as (d)); side conditions file < 2^32 bytes, generations <= 65535, numbers < "
+            "entries, object 0, garbage without the magic, binary comment. _partial: no object-stream members; VALUES OF ANY SHAPE, direct-/Length AND referenced-/Length STREAM OBJECTS since C03e as in (d) "
+            "(render_xrefstream_binds_deep_partial, non-vacuity exDeepRevX_simple / exDeepRevXUp_simple: plain and Flate + PNG-Up); side conditions file < 2^32 bytes, generations <= 65535, numbers < "
             "2^63-1, distinct numbers incl. xnum, lay.w0 <= 4, one stored block <= 65535 bytes when FlateDecode'd. "
             "LAYOUTS THAT REMAIN without an end-to-end theorem (decided by the correspondence run against the oracle DocSpec.resolve): (1) length holders that are not plain "
             "file-level integer objects (a holder inside an object stream, or itself dependent), a cross-reference stream object whose own /Length is a reference; "
-            "(2) object streams and cross-reference streams through filter chains other than none / one FlateDecode with stored blocks (Huffman-coded zlib streams, "
-            "ASCIIHex, ASCII85, chains) - C06 has the layer theorems, they are not composed here; (3) hybrid files INSIDE the known finding (hidden generation 0: the model "
+            "(2) object streams and cross-reference streams through ASCIIHex, ASCII85 or filter CHAINS (C06 has the layer theorems, they are not composed here) - "
+            "a single FlateDecode is CLOSED since C03e for ANY zlib stream the modelled inflate decodes, in particular every stream of C06's specification encoders (stored, fixed-Huffman from any LZ77 factorisation, "
+            "dynamic-Huffman with any valid header, in any mixture): the storage predicates LoaderE2E.Stored / LoaderObjStm.Stored have constructors flateAny / flatePredAny asking for the inflate verdict only "
+            "(stored_of_layerEnc, inflate_of_layerEnc, applyFilters_flate_any, applyFilters_flate_pred_any), every end-to-end theorem (a)-(c), (e) consumes them through stored_decodes / decodesTo_of_stored and "
+            "therefore covers such files unchanged; surfaced as load_defines_exactly_xrefstream_anyflate / _dynflate, stored_of_flate_encoder(_pred), container_stored_of_flate_encoder (Props/C03AnyFlate.lean); "
+            "non-vacuity exZFile_loads: a complete file whose cross-reference stream is a stored block + a fixed-Huffman block + a final DYNAMIC-Huffman block. New size hypothesis for object streams compressed "
+            "that way: the DECODED data is at most 2^63 bytes (a compressed stream can be shorter than its data); (3) hybrid files INSIDE the known finding (hidden generation 0: the model "
             "loses the object, hybrid_hidden_gen0_witness); (4) object-stream containers whose own /Length is a reference, containers listed but not defined; "
-            "(5) multi-revision files that COMBINE hybrid sections with object streams (C04, follow-up C03d: histories of ANY number of revisions are closed for classic tables and cross-reference streams in any mix "
+            "(5) multi-revision files: nothing of the statement's layout freedoms remains open per se since C03e closed hybrid sections hiding object-stream members "
+            "(C04.newest_wins_history_hybrid_objstm) and forward /Length inside histories (C04.newest_wins_history_fwd); and their combination with object streams (C04.newest_wins_history_all: the most general history theorem - hybrid sections, object streams incl. hidden members and containers with forward /Length, second-pass objects across revisions); what remains are holders INSIDE object streams and the known findings (C04, follow-up C03d: histories of ANY number of revisions are closed for classic tables and cross-reference streams in any mix "
             "- C04.newest_wins_history_mix -, with hybrid sections incl. hidden objects - C04.newest_wins_history_hybrid, outside the decidable shape hiddenClash of finding #31 -, and with object streams "
             "whose members no later revision mentions - C04.newest_wins_history_objstm); (6) the generator link for hybrid layouts, object-stream members and "
-            "for non-scalar values (the links (d) and (f) are now proved for a revision rendered at ANY position with ANY /Prev - LoaderE2E.cls_link / stm_link - and composed over renderRevs for histories "
+            "referenced-/Length streams inside multi-revision histories - for single revisions non-scalar VALUES and ALL stream objects are closed since C03e - (the links (d) and (f) are now proved for a revision rendered at ANY position with ANY /Prev - LoaderE2E.cls_link / stm_link - and composed over renderRevs for histories "
             "of any number of revisions: C04.render_history_loads_partial). Technical side conditions of all end-to-end theorems: no byte 's' in the white space / comments between `startxref` and its number, no "
             "further %%EOF after the last one, files below 2^63 bytes where object streams are involved.",
         "load_never_panics_partial":
@@ -199,8 +242,9 @@ LEVEL = {
             "freedom is a field: classic table (ClassicFile), cross-reference stream with any /W widths, /Index partition, unfiltered / Flate stored blocks / "
             "Flate + PNG-Up or any other C07 predictor (XrefStreamFile), hybrid table + /XRefStm (HybridFile), with objects stored directly or inside object "
             "streams, stream lengths direct or (forward-)referenced, leading garbage, any legal spelling of every value - composing the component theorems of "
-            "C02, C05, C13, C14, C06, C07; and the executable generator's classic-table output (scalar values) is proved to be such a well-formed layout. "
-            "The full statement over GENERATED files (all layouts, Huffman-coded zlib streams, non-scalar spellings) is decided on the real code by the oracle over generated documents covering table / stream / hybrid, /W, /Index, Flate + PNG-Up, "
+            "C02, C05, C13, C14, C06, C07; and the executable generator's classic-table and cross-reference-stream output (object values of ANY shape the encoder can spell: arrays and dictionaries of any nesting, entries in any order; stream objects with direct or referenced /Length and arbitrary data; no object-stream members) is proved to be such a well-formed layout. "
+            "FlateDecode'd cross-reference streams and object streams are covered for ANY zlib stream the modelled inflate decodes - every stored / fixed-Huffman / dynamic-Huffman stream of C06's specification encoders (load_defines_exactly_xrefstream_anyflate, witness file with all three block types). "
+            "The full statement over GENERATED files (all layouts at once, ASCIIHex / ASCII85 / filter chains, generated stream objects and members) is decided on the real code by the oracle over generated documents covering table / stream / hybrid, /W, /Index, Flate + PNG-Up, "
             "object streams, direct and referenced /Length, leading garbage; model and code agree on every generated and corrupted file. Known "
             "finding #31 (hybrid, hidden object with a generation-0 free entry is lost) is reproduced, classified on the case and witnessed by a theorem. "
             "THE ENCRYPTED FLAG (Props/C03Enc.lean, Spec/DocEnc.lean): proved for all inputs that a trailer with /Encrypt raises the flag and nothing lowers it, that with the flag up no "
